@@ -320,6 +320,8 @@ def dep_flags(chains, read_chunk=None, read_block=None):
     bcjx = any(c is not None and any(f["id"] in BCJS for f in c) and not any(f["id"] == "LZMA2" for f in c) for c in chains)
     if ppmd:
         flags["uses_pyppmd"] = True
+    if any(c is not None and any(f["id"] == "DEFLATE64" for f in c) for c in chains):
+        flags["uses_inflate64"] = True
     if bcjx:
         flags["uses_pybcj"] = True
         if (read_chunk is not None and read_chunk < 4096) or (read_block is not None and read_block < 4096):
